@@ -3,6 +3,7 @@ package sim
 import (
 	"context"
 	"fmt"
+	"io"
 	"sort"
 	"strings"
 	"time"
@@ -26,14 +27,15 @@ type c07Req struct {
 }
 
 type c07Scenario struct {
-	Component bool       `json:"component"`
-	Client    ClientOpts `json:"client"`
-	Reqs      []c07Req   `json:"requests"`
-	Tasks     int        `json:"tasks"`
-	Seg       int        `json:"segmentation"`
-	LatencyNs int64      `json:"latency_ns"`
-	Dawdle    int        `json:"handler_dawdle"`
-	HandlerIQ int        `json:"handler_sends_iq"` // number of server requests whose handler issues a SendIQ of its own
+	Component       bool       `json:"component"`
+	Client          ClientOpts `json:"client"`
+	Reqs            []c07Req   `json:"requests"`
+	Tasks           int        `json:"tasks"`
+	Seg             int        `json:"segmentation"`
+	LatencyNs       int64      `json:"latency_ns"`
+	Dawdle          int        `json:"handler_dawdle"`
+	AcrossReconnect bool       `json:"request_pending_across_reconnect,omitempty"`
+	HandlerIQ       int        `json:"handler_sends_iq"` // number of server requests whose handler issues a SendIQ of its own
 }
 
 type c07Resp struct {
@@ -71,6 +73,7 @@ func runC07(e *Engine, g G, o RunOpt) RunInfo {
 		e.Net.Latency = time.Duration(sc.LatencyNs)
 	}
 	sc.Dawdle = g.N("dawdle", 3)
+	sc.AcrossReconnect = !sc.Component && g.Pct("across-reconnect", 15)
 	if g.Pct("handler-iq", 30) {
 		sc.HandlerIQ = g.Range("handler-iq-n", 1, 3)
 	}
@@ -101,6 +104,7 @@ func runC07(e *Engine, g G, o RunOpt) RunInfo {
 	var sender xmpp.Sender
 	var conn *SrvConn
 	var srv *Server
+	var cw *CW
 	established := false
 	var sent []c07Resp
 	gots := map[string]*c07Got{}
@@ -228,6 +232,7 @@ func runC07(e *Engine, g G, o RunOpt) RunInfo {
 				prepSrv(s)
 			})
 			handled = &s.W.Handled
+			cw = s.W
 			router = s.W.Router
 			if !ok {
 				return
@@ -407,6 +412,51 @@ func runC07(e *Engine, g G, o RunOpt) RunInfo {
 		}
 		e.WaitUntilFor("tasks", 5*time.Minute, func() bool { return tasksDone == sc.Tasks })
 		e.Sleep(5 * time.Second)
+		if sc.AcrossReconnect && cw != nil {
+			// a request is still pending when the connection is lost; the application resumes; the
+			// answer arrives on the new connection: it is still that request's answer
+			id := "qx"
+			iq, _ := stanza.NewIQ(stanza.Attrs{Type: stanza.IQTypeGet, Id: id, To: SimDomain})
+			iq.Payload = &stanza.Version{}
+			ctx, cancel := context.WithCancel(context.Background())
+			cancels = append(cancels, cancelAt{at: e.Now() + 24*time.Hour, fn: cancel, id: id})
+			ctxEnd[id] = -1
+			var ch chan stanza.IQ
+			err, _ := e.Call("SendIQ "+id, func() error {
+				var err error
+				ch, err = sender.SendIQ(ctx, iq)
+				return err
+			})
+			if err == nil && ch != nil {
+				e.Sleep(50 * time.Millisecond)
+				nd := countState(cw.Events, xmpp.StateDisconnected)
+				conn.Pipe.Cli.CutAt = conn.End.TotalWritten
+				conn.Pipe.Cli.CutErr = io.EOF
+				if !e.WaitUntilFor("lost", time.Minute, func() bool { return countState(cw.Events, xmpp.StateDisconnected) > nd }) {
+					e.Sleep(time.Second)
+					rerr, _ := e.Call("Resume", cw.Client.Resume)
+					if rerr == nil && len(srv.Conns) == 2 {
+						conn = srv.Conns[1]
+						e.Sleep(100 * time.Millisecond)
+						raw, rs := resp(id, "result")
+						rs.sentAt = e.Now()
+						conn.Send(raw)
+						select {
+						case v, ok := <-ch:
+							e.Yield("across.read")
+							if ok && v.From == rs.marker {
+								e.Probe("c07.answered_across_reconnect")
+							} else {
+								e.Violate("C07", "response-missed-caller:across-reconnect", "request %s was pending across a reconnection; got %v (ok=%v), expected its answer %s", id, v.From, ok, rs.marker)
+							}
+						case <-time.After(10*time.Second + 37*time.Microsecond):
+							e.Yield("across.timeout")
+							e.Violate("C07", "response-missed-caller:across-reconnect", "request %s was pending across a reconnection; its answer arrived on the new connection but never reached the caller", id)
+						}
+					}
+				}
+			}
+		}
 		// end every context that is still open
 		for len(cancels) > 0 {
 			c := cancels[0]
